@@ -45,7 +45,13 @@ POOL = {
     'scriptroot': lambda: ScriptRootMiddleware(),
 }
 PATHS = ['/ok', '/rnd', '/empty', '/stream', '/red', '/ctx', '/x404', '/r409', '/r404', '/nb', '/nbret', '/x503', '/boom', '/g',
-         '/form', '/b', '/b/', '/missing', '/ctx?format=html', '/text', '/small', '/r400nb', '/boomkey']
+         '/form', '/b', '/b/', '/missing', '/ctx?format=html', '/text', '/small', '/r400nb', '/boomkey',
+         # boundary sizes (buffer and block boundaries of compressors) and their neighbours
+         '/size/0', '/size/1', '/size/4096', '/size/8192', '/size/16384', '/size/32768', '/size/65535', '/size/65536', '/size/65537',
+         '/size/131072', '/size/262144', '/size/1048576',
+         # query parameters that belong to some middleware but do NOT trigger it
+         '/ok?_prof_sort=tottime', '/ok?_prof_sort=', '/x404?_prof_sort=nfl', '/red?_prof=', '/ok?unread_q=1&format=zzz',
+         '/ctx?_prof_sort=%00', '/ok?callback=x']
 AES = [('gzip', True), ('gzip;q=0', False), ('*', True), ('identity', False), (None, False), ('deflate, gzip;q=0.5', True),
        ('br', False), ('gzip, deflate, br', True), ('*;q=0', False)]
 METHODS = ['GET', 'GET', 'GET', 'HEAD', 'POST', 'DELETE']
@@ -105,9 +111,13 @@ def routes():
 
     def form(request):
         return Response('form:%s' % sorted(request.form.items()))
+
+    def size(n):
+        # n compressible bytes: sizes sit on powers of two and their neighbours (buffer boundaries)
+        return Response((b'0123456789abcdef' * (n // 16 + 1))[:n], mimetype='text/plain')
     return [('/ok', ok), ('/rnd', rndb), ('/empty', empty), ('/small', small), ('/text', text), ('/stream', stream), ('/red', red),
             ('/ctx', ctx, render_basic), ('/x404', x404), ('/r409', r409), ('/r404', r404), ('/nb', nb), ('/nbret', nbret),
-            ('/r400nb', r400nb), ('/x503', x503), ('/boom', boom), ('/boomkey', boomkey), GET('/g', ok), POST('/form', form), ('/b/', ok)]
+            ('/r400nb', r400nb), ('/x503', x503), ('/boom', boom), ('/boomkey', boomkey), GET('/g', ok), POST('/form', form), ('/b/', ok), ('/size/<n:int>', size)]
 
 
 class OsProxy(object):
@@ -402,6 +412,8 @@ class C15(Check):
     @staticmethod
     def kind(path, code):
         p = path.split('?')[0]
+        if p.startswith('/size/'):
+            return 'size'
         return {'/missing': 'unknown-url', '/g': 'get-only', '/form': 'post-only'}.get(p, p.strip('/') or 'root') if not (
             p in ('/g', '/form') and code == 405) else 'wrong-method'
 
